@@ -17,7 +17,10 @@ use vmon::rng::Rng;
 use vmon::srv::{Ctx, Running, SrvCfg, C};
 
 pub const RULE: &str = "one case = one request (uid) of a generated scenario \
-(task mode x tokio workers 1/2/4/16 x CPU hogs x 1..128 concurrent connections x \
+(task mode detached/cancel/default-mode = not named in the configuration, judged as the \
+documented default Detached x final close() after all handlers ended / called while \
+victims' handlers still wait (detached oracle only; C close called, Z close returned) x \
+handler keeps / drops its RequestContext before waiting x tokio workers 1/2/4/16 x CPU hogs x 1..128 concurrent connections x \
 per-request handler kind gated/gated-post/stepping/big/panicking/(rare, tagged) \
 stream-unread-body x disconnect phase \
 P0 head half-sent/P0b body half-sent/P1 after last byte/P2 after observed H_ENTER/P3 \
@@ -117,6 +120,8 @@ struct Plan {
     slow_reader: bool,
     open_delay_us: u64,
     min_steps: i64,
+    /// handler variant that drops its RequestContext before it waits
+    drop_rqctx: bool,
 }
 
 impl Plan {
@@ -128,30 +133,53 @@ impl Plan {
                "phase": self.phase.tag(), "style": self.style.tag(), "size": self.size,
                "k": self.k, "step_us": self.step_us, "open_at": format!("{:?}", self.open_at),
                "delay_us": self.delay_us, "cut_permille": self.cut_permille,
-               "read_before": self.read_before, "slow_reader": self.slow_reader})
+               "read_before": self.read_before, "slow_reader": self.slow_reader,
+               "handler_drops_rqctx_early": self.drop_rqctx})
     }
 }
 
 struct Sc {
+    /// Some(mode): the configuration names the mode; None: the mode is whatever
+    /// `ConfigDropshot::default()` says ("mode not named"), which dropshot
+    /// documents to be Detached - judged with the Detached oracle
+    named: Option<HandlerTaskMode>,
+    /// the mode the server is actually configured with
     mode: HandlerTaskMode,
+    /// detached oracle only: the final close() is called while the victims'
+    /// handlers are still waiting (their clients gone); gates open afterwards
+    close_early: bool,
     workers: usize,
     hogs: usize,
     plans: Vec<Plan>,
 }
 
 impl Sc {
+    fn tag(&self) -> &'static str {
+        match self.named {
+            Some(m) => mode_tag(m),
+            None => "default-mode",
+        }
+    }
+    fn oracle_detached(&self) -> bool {
+        self.named != Some(HandlerTaskMode::CancelOnDisconnect)
+    }
     fn json(&self) -> Value {
-        json!({"mode": mode_tag(self.mode), "workers": self.workers, "hogs": self.hogs,
-               "requests": self.plans.len()})
+        json!({"mode": self.tag(), "configured_mode": mode_tag(self.mode),
+               "close_called_while_victim_handlers_wait": self.close_early,
+               "workers": self.workers, "hogs": self.hogs, "requests": self.plans.len()})
     }
 }
 
 fn gen_scenario(rng: &mut Rng, quick: bool) -> Sc {
-    let mode = if rng.bool() {
-        HandlerTaskMode::Detached
-    } else {
-        HandlerTaskMode::CancelOnDisconnect
+    let named = match rng.below(10) {
+        0..=3 => Some(HandlerTaskMode::Detached),
+        4..=7 => Some(HandlerTaskMode::CancelOnDisconnect),
+        _ => None,
     };
+    let mode =
+        named.unwrap_or_else(|| dropshot::ConfigDropshot::default().default_handler_task_mode);
+    let close_early =
+        named != Some(HandlerTaskMode::CancelOnDisconnect) && rng.chance(3, 10);
     let workers = *rng.pick(&[1usize, 2, 4, 16]);
     let hogs = if rng.chance(3, 10) { 1 + rng.usize(workers.min(4)) } else { 0 };
     let sizes: &[usize] = if quick {
@@ -185,6 +213,7 @@ fn gen_scenario(rng: &mut Rng, quick: bool) -> Sc {
             slow_reader: false,
             open_delay_us: rng.below(3000),
             min_steps: rng.range(-1, 4),
+            drop_rqctx: rng.bool(),
         };
         if rng.below(10) < pv {
             // victim
@@ -255,7 +284,7 @@ fn gen_scenario(rng: &mut Rng, quick: bool) -> Sc {
         }
         plans.push(p);
     }
-    Sc { mode, workers, hogs, plans }
+    Sc { named, mode, close_early, workers, hogs, plans }
 }
 
 #[derive(Default, Clone, Debug)]
@@ -297,7 +326,7 @@ fn encode(p: &Plan, inst: u64) -> Vec<u8> {
         r.method = "POST".into();
         r = r.body(&vec![b'y'; STREAM_BODY]);
     }
-    r.encode()
+    drop_rqctx(r, p.drop_rqctx).encode()
 }
 
 fn client(p: &Plan, env: &Env) -> COut {
@@ -502,8 +531,8 @@ pub fn run_scenario(out: &mut Out, seed: u64, shard: u64, case: u64, quick: bool
     let victims_done = AtomicUsize::new(0);
     let env = Env { addr: running.addr, ctx: &ctx, log: &log, victims_done: &victims_done };
     let n_victims = sc.plans.iter().filter(|p| p.victim()).count();
-    let detached = sc.mode == HandlerTaskMode::Detached;
-    let m = mode_tag(sc.mode);
+    let detached = sc.oracle_detached();
+    let m = sc.tag();
     let ident = json!({"seed": seed, "shard": shard, "case": case, "scenario": sc.json()});
 
     let trace = std::env::var("VMON_HIST_TRACE").is_ok();
@@ -541,7 +570,12 @@ pub fn run_scenario(out: &mut Out, seed: u64, shard: u64, case: u64, quick: bool
             if !gated {
                 continue;
             }
-            if (!p.victim() && p.open_at == OpenAt::AtRelease) || (p.victim() && detached) {
+            // (with close_early the victims' gates stay shut until close() has
+            // been called)
+            let hold = sc.close_early && matches!(p.phase, Phase::P0b | Phase::P1 | Phase::P2);
+            if (!p.victim() && p.open_at == OpenAt::AtRelease)
+                || (p.victim() && detached && !hold)
+            {
                 if !ctx.gates.is_open(p.uid) {
                     open_gate(&env, p.uid);
                 }
@@ -593,18 +627,44 @@ pub fn run_scenario(out: &mut Out, seed: u64, shard: u64, case: u64, quick: bool
         }
     }
     marks.push(("strict_checked", t0.elapsed().as_secs_f64()));
-    // now open every remaining gate and let the server come to rest
-    for p in &sc.plans {
-        if !matches!(p.kind, Kind::Panicking | Kind::PanicPipe) && !ctx.gates.is_open(p.uid) {
-            open_gate(&env, p.uid);
+    let open_rest = |env: &Env| {
+        for p in &sc.plans {
+            if !matches!(p.kind, Kind::Panicking | Kind::PanicPipe) && !ctx.gates.is_open(p.uid) {
+                open_gate(env, p.uid);
+            }
         }
+    };
+    let (quiescent, health_res, closed);
+    if sc.close_early {
+        // detached oracle: close() is called while handlers whose clients have
+        // left are still waiting; their gates are opened only after the call,
+        // from this thread, independently of close() returning
+        health_res = health(&env);
+        drop(hogs);
+        let server = running.server.take().unwrap();
+        let lg = log.clone();
+        running.handle().spawn(async move {
+            lg.push("S_CLOSE_CALL", 0, 0, "");
+            let r = server.close().await;
+            lg.push("S_CLOSE_RET", 0, r.is_ok() as i64, &format!("{r:?}"));
+        });
+        let _ = log.wait_for(|e| e.kind == "S_CLOSE_CALL", WD_OBSERVE);
+        std::thread::sleep(Duration::from_micros(rng.below(6000)));
+        open_rest(&env);
+        closed = log
+            .wait_for(|e| e.kind == "S_CLOSE_RET", Duration::from_secs(20))
+            .map(|_| Ok::<(), String>(()));
+        quiescent = wait_handlers_ended(&log, Duration::from_secs(15));
+    } else {
+        // open every remaining gate and let the server come to rest
+        open_rest(&env);
+        quiescent = wait_handlers_ended(&log, Duration::from_secs(15));
+        marks.push(("quiescent", t0.elapsed().as_secs_f64()));
+        health_res = health(&env);
+        marks.push(("health", t0.elapsed().as_secs_f64()));
+        drop(hogs);
+        closed = close_with_watchdog(&mut running, 20);
     }
-    let quiescent = wait_handlers_ended(&log, Duration::from_secs(15));
-    marks.push(("quiescent", t0.elapsed().as_secs_f64()));
-    let health_res = health(&env);
-    marks.push(("health", t0.elapsed().as_secs_f64()));
-    drop(hogs);
-    let closed = close_with_watchdog(&mut running, 20);
     marks.push(("closed", t0.elapsed().as_secs_f64()));
     let events = log.snapshot();
     drop(running);
@@ -636,6 +696,8 @@ pub fn run_scenario(out: &mut Out, seed: u64, shard: u64, case: u64, quick: bool
         }
     }
     let empty = UidHist::default();
+    let close_call = events.iter().find(|e| e.kind == "S_CLOSE_CALL").map(|e| e.seq);
+    let close_ret = events.iter().find(|e| e.kind == "S_CLOSE_RET").map(|e| e.seq);
     for (p, co) in sc.plans.iter().zip(couts.iter()) {
         for r in &co.inconclusive {
             rep.inconclusive(r);
@@ -672,7 +734,7 @@ pub fn run_scenario(out: &mut Out, seed: u64, shard: u64, case: u64, quick: bool
             if detached {
                 rep.violate(
                     format!(
-                        "C16:detached:handler-cancelled@{}{}",
+                        "C16:{m}:handler-cancelled@{}{}",
                         p.phase.tag(),
                         if p.kind == Kind::Stream { ":unread-streaming-body" } else { "" }
                     ),
@@ -708,6 +770,23 @@ pub fn run_scenario(out: &mut Out, seed: u64, shard: u64, case: u64, quick: bool
         }
         if entered && h.ending().is_none() {
             rep.inconclusive("c16-no-ending-at-quiescence");
+        }
+        // detached promise at shutdown: a started handler runs to completion, so
+        // close() may not report the server shut down while it is still running
+        // (afterwards the application exits and the runtime kills it)
+        if let (true, Some(ret)) = (sc.close_early && entered, close_ret) {
+            if h.ending().map(|e| e < ret).unwrap_or(false) {
+                rep.count("handler_ended_before_final_close_returned", 1);
+            } else {
+                rep.violate(
+                    format!(
+                        "C16:{m}:close-returned-while-detached-handler-running@{}",
+                        p.phase.tag()
+                    ),
+                    wit("close() returned (S_CLOSE_RET) although a started handler of a \
+                         detached-mode server had not completed; its client had disconnected"),
+                );
+            }
         }
         if detached && entered && p.victim() && h.done.len() == 1 {
             rep.count("detached_victims_completed", 1);
@@ -771,11 +850,19 @@ pub fn run_scenario(out: &mut Out, seed: u64, shard: u64, case: u64, quick: bool
                 (_, None) => {}
             }
         }
-        let ord = ordering(h, &[]);
+        let mut extra: Vec<(&'static str, u64)> = vec![];
+        if let (true, Some(c)) = (sc.close_early && entered, close_call) {
+            extra.push(("C", c));
+            if let Some(z) = close_ret {
+                extra.push(("Z", z));
+            }
+        }
+        let ord = ordering(h, &extra);
         out.inter.insert(format!("{m}|{}|{}|{}", p.phase.tag(), p.style.tag(), strip_client(&ord)));
         rep.eval(format!(
-            "{m}|{}|{}|{}|{ord}|{otag}{verdict}",
+            "{m}|{}{}|{}|{}|{ord}|{otag}{verdict}",
             p.kind.tag(),
+            if p.drop_rqctx { "~rqctx-dropped-early" } else { "" },
             p.phase.tag(),
             if p.victim() { p.style.tag() } else { "-" },
         ));
@@ -808,7 +895,7 @@ pub fn run_scenario(out: &mut Out, seed: u64, shard: u64, case: u64, quick: bool
 
 /// ordering restricted to (ENTER, steps, DISCONNECT, DONE/DROP)
 fn strip_client(ord: &str) -> String {
-    ord.chars().filter(|c| "EsdDFXxP".contains(*c)).collect()
+    ord.chars().filter(|c| "EsdDFXxPCZ".contains(*c)).collect()
 }
 
 pub fn run_shard(seed: u64, shard: u64, nshards: u64, total: u64, quick: bool) -> Out {
